@@ -443,6 +443,10 @@ def run(ctx):
     tx_strat = st.fixed_dictionaries({'kind': st.just('tx'), 'strict': st.booleans(),
                                       'tx': txgen.tx_cases(big_counts=False)})
     ctx.run_given('tx', tx_strat, prop_tx, ctx.scale(300, 12000))
+    # input / output counts on the CompactSize boundary (252, 253, 254): expensive, a few per shard
+    big = st.fixed_dictionaries({'kind': st.just('tx'), 'strict': st.booleans(),
+                                 'tx': txgen.tx_cases(big_counts=True, max_in=2, max_out=2)})
+    ctx.run_given('tx_big_counts', big, prop_tx, ctx.scale(6, 60))
 
     def prop_block(case):
         ctx.nt(('block', case['block']))
